@@ -94,7 +94,7 @@ def compare(jobs, trace_path):
                 opn, ex = e["n"] - 1, []
             elif k == "bs":
                 ex.append(e["kj"])          # one per body execution (first execution and every iteration)
-            elif k == "ret" and cur is not None and 0 <= opn < len(cur["pred"]):
+            elif k == "ret" and cur is not None and 0 <= opn < len(cur["pred"]) and cur["pred"][opn] is not None:
                 p = cur["pred"][opn]
                 checked += 1
                 if e.get("ok") != 1 or e.get("v") != p["v"]:
@@ -102,3 +102,110 @@ def compare(jobs, trace_path):
                 elif ex != p["ex"]:
                     drift.append({"job": cur["id"], "op": opn + 1, "model": p["ex"], "impl": ex})
     return checked, wrong, drift
+
+
+# ---------------------------------------------------------------------------------------------------
+# FixRev: the same engine across revisions (one boolean input gating calls, writes between requests)
+REV_SPEC = os.path.join(SPECS, "cycle", "MC_FixRev.tla")
+# exhaustive configurations, and simulated ones (random behaviours of a larger instance: `sim` traces per worker)
+REV_CFG = {"quick": [dict(NF=2, MaxOps=4, MaxWrites=2, Progs="AllProgs"),
+                     dict(NF=3, MaxOps=5, MaxWrites=2, Progs="AllProgs", sim=120)],
+           "thorough": [dict(NF=2, MaxOps=5, MaxWrites=3, Progs="AllProgs"),
+                        dict(NF=3, MaxOps=2, MaxWrites=1, Progs="Progs1"),
+                        dict(NF=3, MaxOps=6, MaxWrites=3, Progs="AllProgs", sim=2500)],
+           "try3": [dict(NF=3, MaxOps=2, MaxWrites=1, Progs="Progs1")]}
+REV_INVARIANTS = ["NoBad", "FinalIsLfp", "LocksQuiescent"]
+
+
+def program_rev(calls, gate, inp0):
+    nf = len(calls)
+    full = (1 << nf) - 1
+    fns = []
+    for j, cl in enumerate(calls, 1):
+        steps = [("orc", 1 << (j - 1))]
+        for i, g in enumerate(cl, 1):
+            steps.append(("cond", 1, 1, g, full) if gate[j - 1] == i else ("orcall", g, full))
+        fns.append({"kind": "fix", "init": 0, "fwd": 0, "nodes": chain_rev(steps)})
+    return {"nv": full + 1, "inputs": [[[inp0, 0], [0, 0]]], "cells": [], "fns": fns, "sfns": [], "ifns": [], "lru_cap": 2}
+
+
+def chain_rev(steps):
+    """orc / orcall / cond (read input 1.1; call only when it is 1) chains ending in retr (node indices are 1-based)."""
+    nodes = []
+    for st in steps:
+        n = len(nodes) + 1
+        if st[0] == "orc":
+            nodes.append({"op": "orc", "a": st[1], "b": 0, "c": 0, "kids": [n + 1]})
+        elif st[0] == "orcall":
+            nodes.append({"op": "orcall", "a": st[1], "b": st[2], "c": 0, "kids": [n + 1]})
+        else:
+            # in node: value 0 -> after the call, 1 -> the call
+            nodes.append({"op": "in", "a": st[1], "b": st[2], "c": 0, "kids": [n + 2, n + 1]})
+            nodes.append({"op": "orcall", "a": st[3], "b": st[4], "c": 0, "kids": [n + 2]})
+    nodes.append({"op": "retr", "a": 0, "b": 0, "c": 0, "kids": []})
+    return nodes
+
+
+def run_fixrev(tier, wd, timeout=3000):
+    out_all = {"consts": [], "generated": 0, "distinct": 0, "depth": 0, "replays": [], "wall_s": 0.0}
+    for n, consts in enumerate(REV_CFG[tier]):
+        cfgp = os.path.join(wd, f"MC_FixRev_emit{n}.cfg")
+        sim = consts.get("sim")
+        with open(cfgp, "w") as f:
+            f.write("SPECIFICATION Spec\nCONSTANTS\n")
+            for k, v in consts.items():
+                if k == "sim":
+                    continue
+                f.write(f"  {k} <- {v}\n" if k == "Progs" else f"  {k} = {v}\n")
+            f.write("  Emit = TRUE\n  Mut = \"none\"\n  defaultInitValue = 0\nINVARIANTS " + " ".join(REV_INVARIANTS) + "\nCHECK_DEADLOCK FALSE\n")
+        twd = os.path.join(wd, f"mc_fixrev{n}")
+        os.makedirs(twd, exist_ok=True)
+        res = run_tlc(REV_SPEC, cfgp, twd, workers=8 if sim else 16, timeout=timeout, heap="12g", deque=False,
+                      simulate=f"num={sim}" if sim else None, extra=["-depth", "600"] if sim else None)
+        out = res["out"]
+        ok = ("No error has been found" in out) if not sim else ("Finished in" in out and "Error:" not in out and "is violated" not in out)
+        if res["rc"] != 0 or not ok:
+            tail = "\n".join(l for l in out.splitlines() if not l.startswith(("Parsing", "Semantic", "Linting", '"REPLAY')))[-4000:]
+            log(tail)
+            raise ToolError(f"FixRev model self-check failed or did not finish (rc={res['rc']})")
+        if sim:
+            m = re.search(r"The number of states generated: (\d+)", out)
+            res["generated"] = res["distinct"] = int(m.group(1)) if m else 0
+        for m in re.finditer(r'^"?REPLAY\|(.*?)"?$', out, re.M):
+            try:
+                rp = json.loads(m.group(1).replace('\\"', '"'))
+                rp["sim"] = bool(sim)
+                out_all["replays"].append(rp)
+            except Exception:
+                pass
+        out_all["consts"].append(consts)
+        out_all["generated"] += res.get("generated", 0)
+        out_all["distinct"] += res.get("distinct", 0)
+        out_all["depth"] = max(out_all["depth"], res.get("depth", 0))
+        out_all["wall_s"] += res["wall_s"]
+    return out_all
+
+
+def replay_jobs_rev(mc, limit, seed):
+    # every simulated behaviour of the larger instances, and a sample of the exhaustively generated ones
+    rng = random.Random(seed)
+    sims = [r for r in mc["replays"] if r.get("sim")]
+    reps = [r for r in mc["replays"] if not r.get("sim")]
+    if limit and len(sims) + len(reps) > limit:
+        reps = rng.sample(reps, max(0, min(len(reps), limit - len(sims))))
+    reps = sims + reps
+    jobs = []
+    for n, r in enumerate(reps):
+        hist, pred = [], []
+        cur = r["inp0"]
+        for o in r["h"]:
+            if o["op"] == "get":
+                hist.append({"op": "get", "f": o["f"], "i": 0, "v": 0, "d": -1, "k": 0})
+                pred.append({"v": mask(o["v"]), "ex": o["ex"]})
+            else:
+                cur = 1 - cur
+                hist.append({"op": "set", "f": 1, "i": 1, "v": cur, "d": -1, "k": 0})
+                pred.append(None)
+        jobs.append({"id": n + 1, "prog": program_rev(r["calls"], r["gate"], r["inp0"]), "hist": hist, "inject": 0,
+                     "seed": seed, "mode": "mc-fix", "pred": pred})
+    return jobs
